@@ -25,17 +25,17 @@ P = {
                 text="1-3 variables, both total-force timing conventions, periodic zero-mean, ramp corner values, maxForce, applyBias off, a second bias with/without subtractAppliedForce, off-grid excursions, run boundaries.",
                 note="distanceZ variables (Jacobian zero) at T=0; dyadic inputs make all sums exact"),
     "C05": dict(cat="exploration", tech="runtime monitor: lock-step reference model of the hill sum (documented schedule, tabulated vs pending vs off-grid evaluation, well-tempered heights) over imposed trajectories; acceptance band spans the documented Gaussian cut-off; ASan sample",
-                text="1-3 scalar variables, grids on/off, gridsUpdateFrequency >= newHillFrequency, well-tempered, periodic, expandBoundaries, keepHills, excursions beyond the grid, run boundaries; energy and per-variable force every step, hill list at the end.",
+                text="1-3 scalar variables, grids on/off, gridsUpdateFrequency >= newHillFrequency, well-tempered, periodic, expandBoundaries, keepHills, excursions beyond the grid, run boundaries; energy and per-variable force every step, hill list at the end. Without grids, half of the jobs are continued by a fresh module configured with another hillWidth: every hill keeps its own widths. Mid-run state writes with pending hills; first steps beyond 2^31.",
                 note="Boltzmann constant of the 'real' unit system; non-scalar variables are covered by C01's finite differences"),
     "C06": dict(cat="exploration", tech="runtime monitor: closed-form restraint and schedule model (functions of the absolute step only) compared under three segmentations of the same history (one run / new run statements / restart from state file in a fresh process); trajectory columns, state fields and dA/dLambda log lines observed",
-                text="harmonic (scalar, periodic, vector, unit vector, quaternion), harmonicWalls, linear, histogramRestraint, ABMD; continuous, staged, lambdaSchedule, targetEquilSteps, lambdaExponent, decoupling schedules; accumulated work and staged TI.",
+                text="harmonic (scalar, periodic, vector, unit vector, quaternion), harmonicWalls, linear, histogramRestraint, ABMD; continuous, staged, lambdaSchedule, targetEquilSteps, lambdaExponent, decoupling schedules; accumulated work and staged TI. Multi-variable restraints list their variables in another order than the names sort; schedules that ended long ago with first steps beyond 2^31.",
                 note="energy 1e-12 relative, work 1e-12*sum|terms| (1e-10 across a state file), TI lines at the 6 printed digits; one documentation/code mismatch (histogramRestraint normalisation) is a known finding"),
     "C07": dict(cat="exploration", tech="runtime monitor: closed loop through the engine simulator (forces Colvars applied are echoed back as total forces), linearity and locality of the total force in the atomic force field, Jacobian term vs numerical divergence of the inverse gradients",
                 text="distance, distanceZ, distanceXY, angle, dihedral, gyration, rmsd, eigenvector, alchLambda, +-1 combinations, oneSiteTotalForce, both timing conventions, subtractAppliedForce, hideJacobian.",
                 note="random (non-dyadic) inputs so that the known exact-cancellation finding of C04 is not triggered"),
     "C08": dict(cat="exploration", tech="runtime monitor: differential runs at the engine boundary (biases {A,B} vs {A} and {B}; time-step factor n vs 1) on imposed histories",
                 text="Sets of biases {A,B,...} run together and separately on the same imposed history: energies and atomic forces of the joint run equal the sums of the separate runs, and a bias with applyBias off / zero strength contributes nothing. Biases and variables with timeStepFactor n: asleep between their steps (no value update, no force), awake steps apply n times the instantaneous force, impulse over a window equals the factor-1 impulse of the sampled steps; runs starting off-multiple (restart, setstep).", note="a variable with factor n under a bias whose factor is not a multiple of n is computed off its schedule: known finding (manual allows the combination)"),
-    "C09": dict(cat="exploration", tech="libFuzzer + ASan/UBSan on read_config_string (hermetic proxy); enumerated keyword/brace/value mutations that must be rejected; documented layout rewrites compared bitwise",
+    "C09": dict(cat="exploration", tech="libFuzzer + ASan/UBSan on read_config_string (hermetic proxy); enumerated keyword/brace/value mutations that must be rejected; documented layout rewrites compared bitwise A third of the joint runs with >= 3 biases use the library's own OpenMP loops with a thread count that does not divide the number of biases.",
                 text="libFuzzer on read_config_string with a dictionary harvested from the sources (quick: 8 workers x 2000 executions, thorough: 16 x 25000); accepted configurations under the damage classes the property names (misspelt keyword, keyword in a block where it is not valid, one brace deleted or added, value of a non-boolean keyword deleted, number replaced by an alphabetic token) must be rejected with an error and leave the module usable; documented layout rewrites (blank lines, indentation, comments, CRLF, blocks joined on one line, brace on the last value line, boolean synonyms, keyword case) must produce a bit-identical model (values, energies, forces after steps).", note="fuzz corpus is seeded from the generated templates; crashes are keyed by sanitizer kind and innermost Colvars frame"),
     "C10": dict(cat="exploration", tech="ASan/UBSan processes over a (object type x keyword x boundary value) grid, one process per case; differential test of surviving objects after a rejected configuration",
                 text="Every keyword (occurring in a template or harvested from the get_keyval calls of the class that parses the block) x {0, -1, 1, 2, 2^31-1, 2^31, 2^32, 2^61, 2^63-1, 1e30, 1e308, nan, inf, -inf, empty, removed, list/vector length errors, bad atoms, missing files, swapped boundaries} plus seeded pairs, one ASan/UBSan process per case through init, steps, state and output writes: must end with success or an error, never a signal, sanitizer report, escaping exception, unbounded allocation or hang. Survivors: after a rejected configuration fed through cv config (including colvars that use the deprecated wall keywords), the previously defined objects behave bit-identically to a control that never saw it, and a later valid configuration is accepted in both.", note="quick runs a stratified sample (about 3800 cases), thorough about 40000; hang = 120 s watchdog re-run once at 10x before it is reported"),
@@ -43,27 +43,27 @@ P = {
                 text="Every call (and partial write) of state writes after the first complete state is turned into a crash point, then a fresh process must load the state file or its backup and find one of the states the uninjected run produced; every truncation offset of text and binary states of 7 configurations must be rejected inside object blocks and never crash; every value type round-trips bit-exactly; fault sequences: a state write that fails with ENOSPC (first or last write() of the file), the run going on, then death at every call of the following state writes.",
                 note="crash = SIGKILL of the process (no power-loss / page-cache model); one format limitation (binary hill list has no count) is a known finding"),
     "C12": dict(cat="exploration", tech="schedule controller behind the proxy's virtual SMP methods (seeded permutations x thread-id maps, std::thread schedules) and the real OpenMP loops with 1-16 threads, all compared bitwise with the serial run; ThreadSanitizer with clang/libomp/Archer for races",
-                text="Each scenario (two-component variables, restraints, metadynamics, histogram, OPES, native scripted-force task) is executed under >100 distinct schedules plus TSan runs; every event, the final state and the trajectory file must be bit-identical to the serial reference and TSan must stay silent.",
+                text="Each scenario (two-component variables, restraints, metadynamics, histogram, OPES, native scripted-force task) is executed under >100 distinct schedules plus TSan runs; every event, the final state and the trajectory file must be bit-identical to the serial reference and TSan must stay silent. Scenarios include a two-variable ALB bias (random numbers) and two extended-Lagrangian variables with the Langevin thermostat (engine's single Gaussian stream).",
                 note="TSan sees OpenMP synchronisation through Archer; gcc/libgomp TSan is not used (false races on correct code)"),
     "C13": dict(cat="exploration", tech="ASan runs of define/delete programs (exhaustive up to length 4 over a reduced alphabet + random longer ones); identity oracle vs a control that never defined the deleted objects and vs a fresh module built from getconfig; dependency-graph invariant through the guarded read-only accessor after every command",
-                text="Programs over {add variable, add bias, delete bias, delete variable, reset, step, rejected configuration}; values/energies/forces/active-atom count/trajectory labels vs control; enabled feature => prerequisites enabled, exclusions, symmetry, reference counts recomputed from scratch.",
+                text="Programs over {add variable, add bias, delete bias, delete variable, reset, step, rejected configuration}; values/energies/forces/active-atom count/trajectory labels vs control; enabled feature => prerequisites enabled, exclusions, symmetry, reference counts recomputed from scratch. Catalogue includes named atom groups reused through atomsOfGroup, path variables, hideJacobian ABF pairs; rejected configurations include two faulty blocks of different types in one text.",
                 note="reference counts above the number of dependents left by a REJECTED definition are counted, not flagged (nothing is switched off under a dependent)"),
     "C14": dict(cat="exploration", tech="multi-process walkers over a simulated replica layer (FIFOs, seeded delays) with exactly-once accounting of unique dyadic samples (shared ABF); lock-step driven walker processes with transient peer-file truncation at random bytes and union-of-hills oracle at probe points (multiple-walker metadynamics)",
-                text="2-4 walkers; every exchange of every walker compared with the union of all walkers' samples (counts ==); metadynamics walkers under a seeded interleaving and partially visible peer files must end up with the hill sum over the union within two update periods.",
+                text="2-4 walkers; every exchange of every walker compared with the union of all walkers' samples (counts ==); metadynamics walkers under a seeded interleaving and partially visible peer files must end up with the hill sum over the union within two update periods. Shared-ABF groups started from earlier .count/.grad files (inputPrefix; counted once, never in a walker's own contribution); each metadynamics walker's .pmf file (with or without the partial file) against the bias it applies once everything received is tabulated.",
                 note="bounded-progress form of 'eventually'; replica communication simulated between processes"),
     "C15": dict(cat="exploration", tech="runtime monitor: imposed dyadic values (on bin edges, boundaries, periods away) vs the literal binning rule, stored counts and multicolumn file compared cell by cell; in-process grid write/read round trips (multicol, restart text/binary, raw)",
                 text="Histograms and ABF count grids of 1-3 variables fed imposed dyadic values on bin edges, boundaries, just inside/outside, whole periods away: every sample lands in exactly the bin given by floor((x-lower)/width) (periodic: modulo), out-of-range samples are dropped (not clamped), totals conserved; grids written as multicolumn / restart text / restart binary / raw and read back must reproduce parameters and data exactly.", note="gatherVectorColvars histograms are rejected by the library at initialisation (known finding), so per-element weights cannot be exercised"),
-    "C16": dict(cat="exploration", tech="in-process harness on integrate_potential / gradient grids with independent numpy oracles: 1-D cumulative sums and closure, residual of the discrete Poisson problem (own operator, independent Laplacian, dense least squares), refinement-order test against analytic surfaces, incremental-vs-batch divergence through the guarded accessor, real ABF runs",
-                text="Random fields on 1-3-D grids with all periodicity patterns and anisotropic widths, six arrival-order classes, three resolutions per analytic surface; the divergence itself against the documented formula evaluated independently (several grids per process); end-to-end files of the TI estimator and of 2-D ABF/eABF fed through inputPrefix (zero-step merge runs and short runs).",
+    "C16": dict(cat="exploration", tech="in-process harness on integrate_potential / gradient grids with independent numpy oracles: 1-D cumulative sums and closure, residual of the discrete Poisson problem (own operator, independent Laplacian, dense least squares), refinement-order test against analytic surfaces, incremental-vs-batch divergence through the guarded accessor, real ABF runs Decimal (not exactly representable) boundaries and widths whose quotient is a whole number of bins mathematically, with samples exactly on decimal bin edges.",
+                text="Random fields on 1-3-D grids with all periodicity patterns and anisotropic widths, six arrival-order classes, three resolutions per analytic surface; the divergence itself against the documented formula evaluated independently (several grids per process); end-to-end files of the TI estimator and of 2-D ABF/eABF fed through inputPrefix (zero-step merge runs and short runs). Residual law also for a second integration of one object started from the surface of other data.",
                 note="max-norm order at corners where >=2 non-periodic directions meet is h^2 log(1/h): counted separately, RMS order must still be 2"),
     "C17": dict(cat="exploration", tech="lock-step reference model of the documented BAOA integrator with a controlled Gaussian source + model-free invariants on the observed coordinate/velocity/energies",
-                text="Extended-Lagrangian variables (reflecting walls / periodic / free, friction 0 and > 0, timeStepFactor 1-3, harmonic / walls / metadynamics / ABF biases, bypassing biases) driven over imposed excursions: the documented integrator is run in lock-step from the imposed actual value, the observed bias force and the logged Gaussians and compared every step; model-free laws on the same logs: energy drift bounded and O(dt^2) when dt is halved (friction 0), never outside a reflecting wall, repeated step / new run / restart twins, one-step identities tying Ep, Ek, total and applied force to the reported state, force routing (atoms feel only the spring and bypassing biases), equipartition over 2e5 updates (thorough).",
+                text="Extended-Lagrangian variables (reflecting walls / periodic / free, friction 0 and > 0, timeStepFactor 1-3, harmonic / walls / metadynamics / ABF biases, bypassing biases) driven over imposed excursions: the documented integrator is run in lock-step from the imposed actual value, the observed bias force and the logged Gaussians and compared every step; model-free laws on the same logs: energy drift bounded and O(dt^2) when dt is halved (friction 0), never outside a reflecting wall, repeated step / new run / restart twins, one-step identities tying Ep, Ek, total and applied force to the reported state, force routing (atoms feel only the spring and bypassing biases), equipartition over 2e5 updates (thorough). A third of the single-process sessions define the variable only after 60 steps with another variable (first step is not the first step of the run).",
                 note="reported velocity is the half-step one (leapfrog form of the documented scheme); reflection velocity rule taken from the code (manual only says 'opposite momentum'), both sign conventions accepted and counted; metadynamics/ABF forces on the extended coordinate are taken as observed (their closure is C04/C05)"),
     "C18": dict(cat="exploration", tech="in-process property harness over colvarvalue / colvar metric functions (dist2, gradients, wrap, interpolate, constraints) with random and adversarial pairs and a finite-difference tangent-space gradient oracle; ASan sample",
                 text="Every value type and 11 configured variables (periodic, unit vector, quaternion, minimum image...) x 16 pair classes; non-negativity, symmetry, identity, period and sign invariance, gradient, wrap range, interpolation end points and manifold.",
                 note="only the tangent projection of the gradient is constrained; near the cut locus the gradient test is inconclusive"),
     "C19": dict(cat="exploration", tech="offline checker of the trajectory, running-average and correlation-function files against the engine-side event log and textbook statistics (numpy)",
-                text="Column/label agreement, step stamps, one line per multiple of the output frequency across run boundaries and object addition/deletion; running average/deviation and auto/cross correlation functions vs textbook definitions.",
+                text="Column/label agreement, step stamps, one line per multiple of the output frequency across run boundaries and object addition/deletion; running average/deviation and auto/cross correlation functions vs textbook definitions. harmonicWalls energy column against the closed form (one or two wall constants; below, between and above the walls).",
                 note="printed precision (1e-10 relative for derived quantities)"),
     "C20": dict(cat="exploration", tech="libFuzzer + ASan/UBSan over script command sequences with a usability epilogue; agreement of script queries with the engine-side event log; equivalence of script-driven and engine-driven paths",
                 text="libFuzzer over sequences of run_colvarscript_command calls (well-formed and malformed, every command of the table at least once each way) interleaved with steps, with an epilogue that must behave as a pristine module; after every step of generated scenarios the script queries equal the engine-side event log at the printed precision; cv config / load / loadfromstring (objects defined in the same or in reverse order, into a fresh module or into one that has already run) / addforce / delete / modifycvcs are equivalent to their engine-driven counterparts on the subsequent steps; two interactive sessions with the same history, one through files (configfile, bias save/load twice under one name, reset, file replaced, configfile) and one through strings, give equal step events.", note="equivalence is bitwise, except reordered loaders (sums run in another order): 1e-9 relative"),
@@ -90,7 +90,7 @@ def main():
             "thorough_cmd": "./vcheck %s --tier thorough" % pid,
             "evidence_file": "/verif/evidence/%s.json" % pid,
             "replay_cmd_template": "./vcheck %s --replay {path}" % pid,
-            "engine": "esim",
+            "engine": "esim addforce on orientation / distanceVec / distanceDir variables: getappliedforce returns F, atomic forces linear in F; two cv config pieces against the whole text read at once, module-level options given once.",
             "level_claimed": {"category": p["cat"], "text": p["text"], "design_ref": "DESIGN.md section 2, " + pid},
             "level_note": p["note"] or "trusts the engine simulator and the reference model written from the manual",
             "technique": p["tech"],
